@@ -279,6 +279,36 @@ def vg1(P, C):
                 if ok:
                     detail = "guard `%s` throws; dominates the first member store at %s" % (g["text"][:80], f.loc(first_store))
             C.ob("VG-1", name, oid, ok, where, detail)
+        # VG-1b: a container argument is indexed per dimension only after its element count has been checked against data.ndim
+        count_guard = {2: "coords-count", 3: "orders-count", 4: "knots-count", 5: "smoothing-count", 6: "penalty-count"}
+        gb = {}
+        for (oid, hazard, conn, leaves, bound) in FIT_OBLIGATIONS:
+            if oid in count_guard.values():
+                g = match_guard(gs, conn, leaves)
+                if g is not None:
+                    gb[oid] = next((pos[x][0] for x in f.walk(f.nodes[g["node"]]["cond"]) if x in pos), None)
+        pid = {p["id"]: k for k, p in enumerate(f.params)}
+        early = {}
+        for i in f.walk():
+            n_ = f.nodes[i]
+            base = idx = None
+            if n_["k"] == "CXXOperatorCallExpr" and n_.get("opcall") == "[]":
+                base, idx = f.strip(n_["ch"][1]), n_["ch"][2]
+            elif n_["k"] == "ArraySubscriptExpr":
+                base, idx = f.strip(n_["ch"][0]), n_["ch"][1]
+            if base is None or f.k(base) != "DeclRefExpr" or f.nodes[base]["decl"].get("id") not in pid:
+                continue
+            k = pid[f.nodes[base]["decl"]["id"]]
+            if k not in count_guard or "cv" in f.nodes[f.strip(idx)]:
+                continue
+            ub = next((pos[x][0] for x in f.walk(i) if x in pos), None)
+            g_b = gb.get(count_guard[k])
+            if ub is None or g_b is None or g_b not in dom[ub] or g_b == ub:
+                early.setdefault(k, []).append(f.loc(i))
+        for k, oid in sorted(count_guard.items()):
+            C.ob("VG-1", name, "indexed-after-%s" % oid, k not in early, early.get(k, [f.where()])[0],
+                 "argument %d (%s) is indexed per dimension only where its element count has already been checked%s"
+                 % (k, f.params[k]["name"], "" if k not in early else ": indexed at %s before the count guard — with too few elements this reads past the container" % early[k][:3]))
         # the penalty order that is checked is the expression that is passed on to the fitter
         want = "(($6.size()>1)?$6[#]:$6[0])"
         passed = [re.sub(r"\[[a-z]\w*\]", "[#]", _render_norm(f, f.args(i)[5], {p["id"]: k for k, p in enumerate(f.params)})).replace(" ", "")
